@@ -183,6 +183,10 @@ func (g *GcsEmu) handleGcsCompose(ctx context.Context, baseUrl HttpBaseUrl, w ht
 		g.gapiError(w, http.StatusBadRequest, "bad compose request")
 		return
 	}
+	if req.Destination == nil {
+		// destination metadata is optional
+		req.Destination = &storage.Object{}
+	}
 	// Get the composed object name from the path
 	parts := strings.Split(object, "/compose")
 	if len(parts) != 2 {
